@@ -363,7 +363,11 @@ def gen_case(ctx, k, big=False):
     data = gen_data(nrng, spec, n_rows, variant)
     perm = [int(i) for i in nrng.permutation(n_rows)]
     refit = rng.random() < 0.5
-    return {"spec": spec, "variant": variant, "data": data, "perm": perm, "refit": refit}
+    # model/Intervals.v's PointsPerInterval masks use unary position numbers (cubic in the number of rows under
+    # vm_compute): larger PointsPerInterval cases go through the search only
+    conditioners = {dm["conditional_on"] for dm in spec["dims"] if dm["conditional_on"] is not None}
+    ppi = any((spec["dims"][c].get("slicer") or {}).get("kind") == "ppi" for c in conditioners)
+    return {"spec": spec, "variant": variant, "data": data, "perm": perm, "refit": refit, "corr": not (ppi and n_rows > 700)}
 
 
 # ------------------------------------------------------------------ Coq side
@@ -762,6 +766,8 @@ def oracle(case, notes, light=False):
     b2 = build_model(spec)
     o2, r2 = run_fit(b2, data[perm], fds)
     if not o2["ok"] and o2["engine"]:
+        if o1["ok"] and o2["err"] != "RuntimeError":   # not a convergence failure: the engine was handed something else
+            return ({"clause": "order-invariance", "kind": "raises"}, "fit of the permuted matrix raises %s: %s" % (o2["err"], o2["msg"]))
         notes["engine_errors_unjudged"] = notes.get("engine_errors_unjudged", 0) + 1
         return None
     v = compare_models(spec, data, o1, o2, "order-invariance", notes)
@@ -777,6 +783,8 @@ def oracle(case, notes, light=False):
     if case.get("refit") and o1["ok"]:
         o3, r3 = run_fit(b2, data, fds)
         if not o3["ok"] and o3["engine"]:
+            if o3["err"] != "RuntimeError":
+                return ({"clause": "re-fit", "kind": "raises"}, "re-fit of an already fitted model raises %s: %s" % (o3["err"], o3["msg"]))
             notes["engine_errors_unjudged"] = notes.get("engine_errors_unjudged", 0) + 1
             return None
         v = compare_models(spec, data, o1, o3, "re-fit", notes)
@@ -788,7 +796,12 @@ def oracle(case, notes, light=False):
                     return ({"clause": "re-fit"}, "dimension %d: data_intervals of the re-fit differ from a first fit" % i)
             v = check_calls(b2, spec, fds, o3, r3)
             if v:
-                return v
+                return dict(v[0], history="re-fit"), "re-fit: " + v[1]
+            for i, d in enumerate(o3["dims"]):
+                if d["cond"]:
+                    v = check_membership(spec, data, i, d)
+                    if v:
+                        return dict(v[0], history="re-fit"), "re-fit: " + v[1]
     return None
 
 
@@ -841,13 +854,16 @@ def nontrivial(case, out):
 def run(ctx):
     _imp()
     ctx.proof_gate()
-    ncases = ctx.n(36, 160)
+    ncases = ctx.n(72, 240)
     cases = [gen_case(ctx, k, big=(k % 6 == 5)) for k in range(ncases)]
     dist = {}
-    items, meta = [], []
+    items, meta, suspects = [], [], []
     skipped = 0
     for k, case in enumerate(cases):
         spec, data, fds = case["spec"], case["data"], case["spec"]["fds"]
+        if not case["corr"]:
+            dist["search only (PointsPerInterval, > 700 rows)"] = dist.get("search only (PointsPerInterval, > 700 rows)", 0) + 1
+            continue
         b = build_model(spec)
         fits = []
         o1, r1 = run_fit(b, data, fds)
@@ -866,6 +882,12 @@ def run(ctx):
         dist[key] = dist.get(key, 0) + 1
         if any((not f[2]["ok"]) and f[2]["engine"] for f in fits):
             skipped += 1
+            ctx.notes.setdefault("engine_error_examples", [])
+            if len(ctx.notes["engine_error_examples"]) < 4:
+                ctx.notes["engine_error_examples"].append("%s: %s" % (fits[-1][2]["err"], fits[-1][2]["msg"][:120]))
+            if o1["ok"] and fits[-1][2]["err"] != "RuntimeError":
+                ctx.mismatch("joint fit case %d fit 1" % k, "re-fit raises %s inside an engine (%s), the first fit did not" % (fits[-1][2]["err"], fits[-1][2]["msg"]))
+                suspects.append(k)
             continue
         ctx.count((k, key, len(data), float(data[0, 0])), nontrivial(case, o1), n=len(fits))
         if k < 2 and o1["ok"]:
@@ -873,6 +895,11 @@ def run(ctx):
                         "dimensions": [{"intervals": len(d["data_intervals"]), "conditioning_values": d["conditioning_values"][:3],
                                         "parameters_per_interval": d["pars"][:2], "dependence": d["deps"]} if d["cond"] else {"parameters": d["pars"]}
                                        for d in o1["dims"]]})
+        for j, f in enumerate(fits):
+            # distributions_per_interval is not in the Coq state: it must run parallel to parameters_per_interval
+            if f[2]["ok"] and any(d["cond"] and d["n_dists"] != len(d["pars"]) for d in f[2]["dims"]):
+                ctx.mismatch("joint fit case %d fit %d" % (k, j), "distributions_per_interval and parameters_per_interval have different lengths")
+                suspects.append(k)
         items.append(("case_%d" % k, coq_case(b, spec, fits)))
         meta.append((k, len(fits)))
     ctx.notes["input_distribution"] = dist
@@ -885,7 +912,9 @@ def run(ctx):
     outs = ctx.coq_eval_many(items, jobs=12, timeout=1500)
     ctx.notes["seconds_coq_evaluation"] = round(time.time() - t1, 1)
     ctx.notes["case_file_bytes"] = sum(len(t) for _, t in items)
-    ncmp, suspects = 0, []
+    ncmp = 0
+    if skipped > max(3, ncases // 4):
+        ctx.broken.append(("correspondence", "engine errors", "%d of %d cases raise inside a fitting engine" % (skipped, ncases)))
     for (k, nf), o in zip(meta, outs):
         if o is None:
             suspects.append(k)
@@ -903,7 +932,7 @@ def run(ctx):
     # ---- search: the property oracle, disagreeing cases first
     order = list(dict.fromkeys(suspects)) + [k for k in range(ncases) if k not in suspects]
     if ctx.quick() and not suspects:
-        order = order[:ctx.n(24, 160)]
+        order = order[:ctx.n(48, 240)]
     found = 0
     for k in order:
         if found >= 4:
